@@ -5,7 +5,9 @@ from __future__ import annotations
 import itertools
 from math import comb
 
-from vf.combi import combinations_range, digits
+from types import SimpleNamespace
+
+from vf.combi import NODE_LABELS, combinations_range, digits, fresh, unlabel
 from vf.core import Job, new_result, viol
 from vf.guard import guarded
 
@@ -125,7 +127,7 @@ def judge_result(fname, res, verdict, n, arcs, supplies, table, limited=False):
     return [], "OPTIMAL"
 
 
-def run_graph(r, n, arcs, do_mcf=True, do_ns=True):
+def run_graph(r, n, arcs, do_mcf=True, do_ns=True, labelled=False):
     from solvor.flow import min_cost_flow
     from solvor.network_simplex import network_simplex
 
@@ -150,6 +152,13 @@ def run_graph(r, n, arcs, do_mcf=True, do_ns=True):
 
                     def call():
                         try:
+                            if labelled:
+                                # assorted hashable labels, a fresh equal-but-not-identical object at every use
+                                lab = lambda x: fresh(NODE_LABELS[x])  # noqa: E731
+                                g = {lab(k): [(lab(v), cap, c) for v, cap, c in vs] for k, vs in graph.items()}
+                                res = min_cost_flow(g, lab(s), lab(t), demand)
+                                inv = {NODE_LABELS[x]: x for x in range(n)}
+                                return SimpleNamespace(status=res.status, objective=res.objective, ok=res.ok, solution=unlabel(res.solution, inv)), None
                             return min_cost_flow({k: list(v) for k, v in graph.items()}, s, t, demand), None
                         except Exception as ex:  # noqa: BLE001
                             return None, f"{type(ex).__name__}: {ex}"
@@ -157,7 +166,7 @@ def run_graph(r, n, arcs, do_mcf=True, do_ns=True):
                     v, verdict = guarded(call, 2.0, 5_000_000)
                     res, err = (None, None) if verdict else v
                     errs, label = judge_result("min_cost_flow", res, verdict or err, n, arcs, sup, table)
-                    _rec(r, "min_cost_flow", errs, label, table, sup, dict(wit, source=s, sink=t, demand=demand), f"min_cost_flow({graph}, {s}, {t}, {demand})")
+                    _rec(r, "min_cost_flow", errs, label, table, sup, dict(wit, source=s, sink=t, demand=demand, labelled=labelled), f"min_cost_flow({graph}, {s}, {t}, {demand}{', assorted labels' if labelled else ''})")
                     if not errs and res is not None and res.ok:
                         costs_seen[tuple(sup)] = res.objective
     if do_ns:
@@ -228,6 +237,8 @@ def _n3_chunk(params, lo, hi):
     for idx in range(lo, hi):
         arcs = [opts[d] for d in digits(idx, len(opts), L)]
         run_graph(r, 3, arcs)
+        if idx % 4 == 1:
+            run_graph(r, 3, arcs, do_ns=False, labelled=True)
         if len(r["violations"]) >= 40 or r["counters"]["hangs"] >= 2:
             r["capped"] = True
             break
@@ -251,6 +262,8 @@ def _n4_chunk(params, lo, hi):
             if idx % 2:
                 arcs.reverse()
             run_graph(r, 4, arcs)
+            if idx % 8 == 3:
+                run_graph(r, 4, arcs, do_ns=False, labelled=True)
         if len(r["violations"]) >= 40 or r["counters"]["hangs"] >= 2:
             r["capped"] = True
             break
@@ -347,8 +360,8 @@ def replay(v):
             idx += alpha.index(x) * 4**k
         rr = _assign_chunk((rows, cols), idx, idx + 1)
         return rr["violations"][0] if rr["violations"] else None
-    run_graph(r, w["n"], [tuple(a) for a in w["arcs"]])
+    run_graph(r, w["n"], [tuple(a) for a in w["arcs"]], do_ns=not w.get("labelled"), labelled=bool(w.get("labelled")))
     for x in r["violations"]:
-        if x["function"] == v["function"] and all(x["witness"].get(k) == w.get(k) for k in ("source", "sink", "demand", "supplies", "max_iter")):
+        if x["function"] == v["function"] and all(x["witness"].get(k) == w.get(k) for k in ("source", "sink", "demand", "supplies", "max_iter", "labelled")):
             return x
     return None
